@@ -4,6 +4,8 @@
 package hclwrite
 
 import (
+	"strings"
+
 	"github.com/hashicorp/hcl/v2/hclsyntax"
 	"github.com/zclconf/go-cty/cty"
 )
@@ -150,24 +152,33 @@ func (bl *blockLabels) Current() []string {
 
 		case *quoted:
 			tokens := labelObj.tokens
-			if len(tokens) == 3 &&
+			if len(tokens) >= 2 &&
 				tokens[0].Type == hclsyntax.TokenOQuote &&
-				tokens[1].Type == hclsyntax.TokenQuotedLit &&
-				tokens[2].Type == hclsyntax.TokenCQuote {
+				tokens[len(tokens)-1].Type == hclsyntax.TokenCQuote {
+				// The scanner may split the content of a quoted label into
+				// several TokenQuotedLit tokens (for example around "$" and
+				// "%" characters), and an open quote followed immediately by
+				// a closing quote is a valid but unusual blank string label.
 				// Note that TokenQuotedLit may contain escape sequences.
-				labelString, diags := hclsyntax.ParseStringLiteralToken(tokens[1].asHCLSyntax())
-
-				// If parsing the string literal returns error diagnostics
-				// then we can just assume the label doesn't match, because it's invalid in some way.
-				if !diags.HasErrors() {
-					labelNames = append(labelNames, labelString)
+				var labelString strings.Builder
+				valid := true
+				for _, token := range tokens[1 : len(tokens)-1] {
+					if token.Type != hclsyntax.TokenQuotedLit {
+						valid = false
+						break
+					}
+					part, diags := hclsyntax.ParseStringLiteralToken(token.asHCLSyntax())
+					// If parsing the string literal returns error diagnostics
+					// then we can just assume the label doesn't match, because it's invalid in some way.
+					if diags.HasErrors() {
+						valid = false
+						break
+					}
+					labelString.WriteString(part)
 				}
-			} else if len(tokens) == 2 &&
-				tokens[0].Type == hclsyntax.TokenOQuote &&
-				tokens[1].Type == hclsyntax.TokenCQuote {
-				// An open quote followed immediately by a closing quote is a
-				// valid but unusual blank string label.
-				labelNames = append(labelNames, "")
+				if valid {
+					labelNames = append(labelNames, labelString.String())
+				}
 			}
 
 		default:
